@@ -104,19 +104,24 @@ func targetsToRemove(graph *core.BuildGraph, filter, targets, targetsToKeep []co
 	log.Notice("%d targets to keep after configured GC roots", len(keepTargets))
 	if !includeTests {
 		// This is a bit complex - need to identify any tests that are tests "on" the set of things
-		// we've already decided to keep.
-		for _, target := range graph.AllTargets() {
-			if target.IsTest() {
-				for _, dep := range publicDependencies(graph, target) {
-					if keepTargets[dep] && !dep.TestOnly {
-						log.Debug("Keeping test %s on %s", target.Label, dep.Label)
-						addTarget(graph, keepTargets, target)
-					} else if dep.TestOnly {
-						log.Debug("Keeping test-only target %s", dep.Label)
-						addTarget(graph, keepTargets, dep)
+		// we've already decided to keep. Keeping a test can make more targets kept, which can in turn
+		// have tests of their own, so repeat until nothing new turns up.
+		for changed := true; changed; {
+			before := len(keepTargets)
+			for _, target := range graph.AllTargets() {
+				if target.IsTest() {
+					for _, dep := range publicDependencies(graph, target) {
+						if keepTargets[dep] && !dep.TestOnly {
+							log.Debug("Keeping test %s on %s", target.Label, dep.Label)
+							addTarget(graph, keepTargets, target)
+						} else if dep.TestOnly {
+							log.Debug("Keeping test-only target %s", dep.Label)
+							addTarget(graph, keepTargets, dep)
+						}
 					}
 				}
 			}
+			changed = len(keepTargets) != before
 		}
 		log.Notice("%d targets to keep after exploring tests", len(keepTargets))
 	}
